@@ -55,7 +55,8 @@ Not judged: the stream before the sync word (start-up of the registered `ready`)
 start-up in the phy harness; cycles in which the physical layer would not accept a word (never happens in luna; the case is
 then counted as unjudged from that point); COM in symbols 1..3 and COM followed by data symbols (C31); what the receiver
 does (C32); in the link harness: whether idle time is granted while the transmitter is in electrical idle, packets cut
-short by a change of link state (framing state restarts), the compliance pattern.
+short or not by a change of link state (the words are not classified until the next start-of-packet word or permitted idle
+word), the compliance pattern.
 """
 from rv.sim import Bench, Registry
 from rv.ref import c31_lfsr as L
@@ -671,6 +672,7 @@ class LinkMonitor:
         self.left = 0              # words of the current header packet / link command / training set still to come
         self.in_dpp = False        # inside a data packet payload (until its end framing)
         self.in_ts = False         # the current structure is a training set
+        self.uncertain = False     # framing unknown (after a change of link state)
         self.unpermitted = 0       # unpermitted filler words in the current run of filler
         self.flagged_run = False
         self.prev_in_packet = None
@@ -682,8 +684,19 @@ class LinkMonitor:
         if self.arb is not None:
             self.b.watch(self.arb.idle)
 
-    def classify(self, sd, sc, sv):
-        """-> True if the word belongs to a packet / ordered set (and advance the framing state)"""
+    START_WORDS = {(0xF7FBFBFB, 0xF), (0xF7FEFEFE, 0xF), (0xF75C5C5C, 0xF), (0xBCBCBCBC, 0xF)}
+
+    def classify(self, sd, sc, sv, cs):
+        """-> True if the word belongs to a packet / ordered set, False if it is filler, None if the framing is not known
+        (after a change of link state, until the next start-of-packet word or permitted idle word); advances the framing state"""
+        if self.uncertain:
+            if sv and ((sd, sc) in self.START_WORDS or ((sc & 1) and (sd & 0xFF) == COM)):
+                self.uncertain = False
+            elif cs and (sd, sc) == (0, 0):
+                self.uncertain = False
+                return False
+            else:
+                return None
         if self.in_dpp:
             # the payload ends with END END END EPF or EDB EDB EDB EPF, at any symbol offset: EPF (K23.7) is its last symbol
             for i in range(4):
@@ -721,11 +734,16 @@ class LinkMonitor:
         res.event("link_cycles_monitored")
         trained = b.get(self.link.trained)
         elec_idle = b.get(s.tx_electrical_idle)
-        if elec_idle or trained != self.prev_trained:
-            # nothing is transmitted in electrical idle, and a change of link state may cut a packet or ordered set short:
-            # the framing state starts afresh
+        if trained != self.prev_trained:
+            # a change of link state may cut a packet or ordered set short - or not: the framing is unknown until the next
+            # start-of-packet word or permitted idle word
             self.prev_trained = trained
-            self.left, self.in_dpp, self.unpermitted, self.prev_in_packet = 0, False, 0, None
+            self.left, self.in_dpp, self.unpermitted, self.prev_in_packet, self.filler_run = 0, False, 0, None, 0
+            self.uncertain = True
+        if elec_idle:
+            # nothing is transmitted in electrical idle; the stream starts afresh afterwards
+            self.left, self.in_dpp, self.unpermitted, self.prev_in_packet, self.filler_run = 0, False, 0, None, 0
+            self.uncertain = False
         if elec_idle:
             # only "permission implies logical idle" is judged (whether idle time is granted is moot while nothing is sent)
             res.event("link_cycles_in_electrical_idle")
@@ -733,7 +751,13 @@ class LinkMonitor:
                 res.violation("skp_permitted_on_non_idle_word", "cycle %d (electrical idle): can_send_skp=1 while the offered word is "
                               "%08x/%x valid=%d" % (b.cycle, sd, sc, sv))
             return
-        in_packet = self.classify(sd, sc, sv)
+        in_packet = self.classify(sd, sc, sv, cs)
+        if in_packet is None:
+            res.event("link_words_framing_unknown")
+            if cs and ((sd, sc) != (0, 0) or not sv):
+                res.violation("skp_permitted_on_non_idle_word", "cycle %d: can_send_skp=1 while the offered word is %08x/%x valid=%d"
+                              % (b.cycle, sd, sc, sv))
+            return
         if in_packet:
             res.event("link_packet_words")
         if cs:
